@@ -887,3 +887,59 @@ func lemmaC05_fopts_cipher(key AES128Key, aFCntDown, uplink bool, devAddr DevAdd
 	}
 	verifAssert(bytesEqualIdx(d, orig), "plaintext-recovered")
 }
+
+// FRMPayload given as MAC commands on port 0 (downlink): the decoded payload bytes, decoded again
+// into MAC commands (DecodeFRMPayloadToMACCommands), are the commands that were put in.
+func lemmaC01_frm_commands(devAddr DevAddr, fcnt uint32, req LinkADRReqPayload, mic MIC) {
+	if req.DataRate > 15 || req.TXPower > 15 || req.Redundancy.ChMaskCntl > 7 || req.Redundancy.NbRep > 15 {
+		return
+	}
+	port := uint8(0)
+	mp := &MACPayload{FHDR: FHDR{DevAddr: devAddr, FCnt: fcnt}, FPort: &port, FRMPayload: []Payload{
+		&MACCommand{CID: LinkADRReq, Payload: &req},
+		&MACCommand{CID: DevStatusReq},
+	}}
+	p := PHYPayload{MHDR: MHDR{MType: UnconfirmedDataDown, Major: LoRaWANR1}, MACPayload: mp, MIC: mic}
+	b, err := p.MarshalBinary()
+	verifAssert(err == nil, "encodes")
+	if err != nil {
+		return
+	}
+	verifAssert(len(b) == 19, "length")
+	var q PHYPayload
+	err2 := q.UnmarshalBinary(b)
+	verifAssert(err2 == nil, "decodes")
+	if err2 != nil {
+		return
+	}
+	err3 := q.DecodeFRMPayloadToMACCommands()
+	verifAssert(err3 == nil, "frm-decode")
+	if err3 != nil {
+		return
+	}
+	mq, ok := q.MACPayload.(*MACPayload)
+	verifAssert(ok, "payload-type")
+	if !ok {
+		return
+	}
+	verifAssert(mq.FPort != nil, "fport-present")
+	verifAssert(len(mq.FRMPayload) == 2, "two-commands")
+	if len(mq.FRMPayload) != 2 {
+		return
+	}
+	c0, ok0 := mq.FRMPayload[0].(*MACCommand)
+	verifAssert(ok0, "cmd0-type")
+	c1, ok1 := mq.FRMPayload[1].(*MACCommand)
+	verifAssert(ok1, "cmd1-type")
+	if !ok0 || !ok1 {
+		return
+	}
+	verifAssert(c0.CID == LinkADRReq, "cmd0-cid")
+	pl, okp := c0.Payload.(*LinkADRReqPayload)
+	verifAssert(okp, "cmd0-payload-type")
+	if okp {
+		verifAssert(*pl == req, "cmd0-payload-equal")
+	}
+	verifAssert(c1.CID == DevStatusReq, "cmd1-cid")
+	verifAssert(c1.Payload == nil, "cmd1-nopayload")
+}
